@@ -588,9 +588,11 @@ class InferenceManager:
                 },
             )
 
-        for index, query in enumerate(queries.conditionals.values()):
+        for index, (key, query) in enumerate(queries.conditionals.items()):
             query = str(query)
-            df.at[index, "index"] = results[query][0]
+            # results are keyed by query text: with repeated texts the stored key is
+            # the last duplicate's, so report the key of the submitted query itself
+            df.at[index, "index"] = key
             df.at[index, "result"] = results[query][1]
             df.at[index, "preprocessing_timed_out"] = self.epistemic_state[
                 "preprocessing_timed_out"
